@@ -28,6 +28,8 @@ impl ToolSpecUtils {
             };
             if value != 0 {
                 tool_spec_map.insert(version, value);
+            } else {
+                tool_spec_map.remove(&version);
             }
         } else {
             let mut tool_spec_map = HashMap::new();
